@@ -760,13 +760,40 @@ def check_r073(fx, rep, cg, dm):
         b = fx.body(f"vm::state::stack::Stack::{meth}")
         if not rep.anchor("R07.3", b is not None, f"Stack::{meth}"):
             continue
+        # the positional accesses of the method: `self.data[i]` / `self.data.swap(i, j)`; each index, read through lets and
+        # through the stack's own private helpers (`self.frame_index(depth)?`, `self.top_frame_index()?`), is
+        # `(len - 1) - frame` for the method's frame parameter (or `len - 1` itself: the top)
         root = b["hir"]["value"]
-        subs = []
+        mutated = T.mutated_locals(root)
+        params = {p_["local"] for p_ in b["hir"]["params"] if p_.get("p") == "Bind" and p_.get("name") != "self"}
+        idx_exprs = []
         for n, ps in F.walk(root):
-            if n.get("k") == "Binary" and n["op"] in ("Sub", "Add"):
-                tl, tr = T.term(n["l"], T.env_at(ps, n, frozenset())), T.term(n["r"], T.Env())
-                subs.append((n["op"], T.short(tl), T.short(tr)))
-        ok = any(op == "Sub" and "top_frame" in l and ("frame" in r or "depth" in r) for op, l, r in subs) and not any(op == "Add" for op, l, r in subs)
+            if n.get("k") == "Index":
+                bs = n.get("e") or n.get("base") or n.get("lhs") or n.get("l")
+                ix = n.get("index") or n.get("idx") or n.get("r")
+                if bs is not None and ix is not None and T.short(T.term(bs, T.Env())).endswith("self.data"):
+                    idx_exprs.append((ix, ps, n))
+            if n.get("k") == "MethodCall" and n["method"] == "swap" and T.short(T.term(n["recv"], T.Env())).endswith("self.data"):
+                for a_ in n["args"]:
+                    idx_exprs.append((a_, ps, n))
+
+        def strip_c(t):
+            while isinstance(t, tuple) and t and t[0] in ("cast", "ref", "deref") and len(t) > 1:
+                t = t[1]
+            return t
+
+        def is_top(t):
+            t = strip_c(t)
+            return isinstance(t, tuple) and t[0] == "bin" and t[1] == "Sub" and strip_c(t[3]) == ("lit", "1") and strip_c(t[2])[0] == "call" and F.strip_generics(str(strip_c(t[2])[1])).endswith("::len") and "self.data" in T.short(strip_c(t[2]))
+
+        subs = []
+        ok = bool(idx_exprs)
+        for ix, ps, n in idx_exprs:
+            t = T.inline_calls(T.term(ix, T.env_at(ps, n, mutated), mutated), fx, 3, (), lambda d: d.startswith("vm::state::stack::Stack::"))
+            t = strip_c(t)
+            subs.append(T.short(t)[:60])
+            good = is_top(t) or (isinstance(t, tuple) and t[0] == "bin" and t[1] == "Sub" and is_top(t[2]) and strip_c(t[3])[0] == "local" and strip_c(t[3])[1] in params)
+            ok = ok and good
         rep.oblige(ok, "R07.3", f"stack-index:{meth}", F.loc(b["span"]), f"Stack::{meth} does not index `top - frame` ({subs})", sample={"rule": "R07.3", "method": meth, "index": subs})
     # push immediates: little-endian read of the (reversed-once) stored bytes
     for b in fx.fn_bodies():
